@@ -123,6 +123,284 @@ def d8():
             'Scope.read set in place (gen aliases node_scope.read): read is now %s' % sorted(map(str, sc.read)))
 
 
+@witness('D20-getter-reads-unbound-nonlocal-state', ['C03'])
+def d20():
+  import malt
+  from malt.impl import api
+  m = _load('''
+def f(n):
+  def g():
+    nonlocal x
+    for i in range(n):
+      x = i
+    return 0
+  r = g()
+  x = 1
+  return r
+''', 'd20')
+  ag = api._TRANSPILER.get_extra_locals()['ag__']
+  real = ag.for_stmt
+  seen = []
+
+  def eager_for_stmt(iter_, extra_test, body, get_state, set_state, symbol_names, opts):
+    try:
+      get_state()                 # what any staging operator does before deciding how to run the loop
+    except NameError as e:
+      seen.append(str(e))
+    return real(iter_, extra_test, body, get_state, set_state, symbol_names, opts)
+  ag.for_stmt = eager_for_stmt
+  try:
+    g = malt.to_graph(m.f)
+    r = g(0)
+  finally:
+    ag.for_stmt = real
+  if seen:
+    return ('zero-trip loop over a state variable that is declared nonlocal and still unbound: the native loop touches nothing '
+            '(f(0) = %r), get_state() raises NameError: %s' % (m.f(0), seen[0][:80]))
+
+
+# ---- regression witnesses of REPAIRED defects: they must pass.  No `finding:` line matches their ids, so a
+# ---- failure is reported as a VIOLATION again ("a fixed entry suppresses nothing").
+
+def _same(src, name, calls, **kw):
+  import malt
+  m = _load(src, name)
+  g = malt.to_graph(m.f, **kw)
+  for args in calls:
+    def run(fn):
+      try:
+        return ('return', repr(fn(*args)))
+      except Exception as e:   # compared by type
+        return ('raise', type(e).__name__)
+    a, b = run(m.f), run(g)
+    if a != b:
+      return 'f%r: original %r, converted %r' % (args, a, b)
+
+
+@witness('D19-nested-nonlocal-read-not-exported', ['C01', 'C02', 'C03', 'C07', 'C08'])
+def d19():
+  return _same('''
+def f(t):
+  y = 1
+  if t:
+    return 0
+  def g_1(p):
+    def g_2(p):
+      nonlocal y
+      x = y
+      return p + y
+    return g_2(3)
+  y = g_1(3)
+  return y
+''', 'd19', [(0,), (1,)])
+
+
+@witness('D4-nonlocal-closure-liveness', ['C01', 'C07'])
+def d4():
+  return _same('''
+def f(c):
+  z = 1
+  def g():
+    nonlocal z
+    z = z + 1
+    return z
+  if c:
+    z = 10
+  return g()
+''', 'd4', [(True,), (False,)])
+
+
+@witness('D14-augassign-rhs-unbound', ['C01'])
+def d14():
+  return _same('''
+def f(c):
+  x = 1
+  if c:
+    del x
+  x += 1
+  return x
+''', 'd14', [(True,), (False,)])
+
+
+@witness('D6-except-as-name', ['C01', 'C05', 'C08'])
+def d6():
+  return _same('''
+def f(c):
+  try:
+    if c:
+      raise ValueError(3)
+    r = 0
+  except ValueError as e:
+    r = e.args[0]
+  return r
+''', 'd6', [(True,), (False,)])
+
+
+@witness('D3-nested-conditional-expression', ['C04'])
+def d3():
+  import malt
+  m = _load('''
+def f(a, b):
+  return (1 if a else 2) if b else 3
+''', 'd3')
+  code = malt.to_code(m.f)
+  import ast
+  if any(isinstance(n, ast.IfExp) for n in ast.walk(ast.parse(code))):
+    return 'a conditional expression nested in a conditional expression stays native in the generated code'
+
+
+@witness('C07-earlier-same-name-local-function-still-reaches', ['C01', 'C07'])
+def c07_same_name_defs():
+  """A second `def` of the same name does not un-define the first function object: it may still be called through
+  another reference, so the variables it closes over stay live."""
+  return _same('''
+def f(c):
+  x = 1
+  cbs = []
+  def cb():
+    return x
+  cbs.append(cb)
+  def cb():
+    return 0
+  if c:
+    x = 2
+  return cbs[0]() + cb()
+''', 'c07sn', [(True,), (False,)])
+
+
+@witness('C11-blocks-in-a-nested-function-avoid-its-own-names', ['C11'])
+def c11_nested_own_names():
+  """The helper names generated for a block inside a NESTED function (if_body, else_body, loop_body, loop_test, get_state,
+  set_state, itr, ...) avoid that function's own parameters and locals, also when those are used only outside the block."""
+  import malt
+  roles = []
+  for name in ('if_body', 'else_body', 'get_state', 'set_state', 'loop_body', 'loop_test', 'extra_test', 'itr'):
+    roles.append(('param', name, '''
+def f(x):
+  def inner(y, %(n)s):
+    if y > 0:
+      y = y + 1
+    else:
+      y = y - 1
+    k = 0
+    while k < 2:
+      k = k + 1
+    for i in range(2):
+      y = y + i
+      if y > 100:
+        break
+    return (y, k, %(n)s)
+  return inner(x, 'user value')
+''' % dict(n=name)))
+    roles.append(('local', name, '''
+def f(x):
+  def inner(y):
+    %(n)s = y * 2
+    if y > 0:
+      y = y + 1
+    else:
+      y = y - 1
+    k = 0
+    while k < 2:
+      k = k + 1
+    for i in range(2):
+      y = y + i
+      if y > 100:
+        break
+    return (y, k, %(n)s)
+  return inner(x)
+''' % dict(n=name)))
+  for role, name, src in roles:
+    m = _load(src, 'c11n_%s_%s' % (role, name))
+    g = malt.to_graph(m.f)
+    for arg in (3, -3):
+      want = m.f(arg)
+      try:
+        got = g(arg)
+      except Exception as e:
+        got = '%s: %s' % (type(e).__name__, e)
+      if got != want:
+        return '%s `%s` of a nested function: f(%d) = %r, original %r' % (role, name, arg, got, want)
+
+
+@witness('C17-default-placeholders-are-distinct-nodes', ['C17', 'C09'])
+def c17_defaults_tree():
+  """The tree handed back by transform_ast is a tree also for functions with several defaults: every erased default
+  is a node of its own (and parse_expression returns a new node per call)."""
+  import ast
+  import malt
+  from malt.impl import api
+  from malt.pyct import parser
+  a, b = parser.parse_expression('None'), parser.parse_expression('None')
+  if a is b:
+    return 'parser.parse_expression returned the same node object twice'
+  m = _load('''
+def f(a, b=1, c=2, *args, k=3, m=4, **kw):
+  if a:
+    b = b + 1
+  return (a, b, c, args, k, m, kw)
+''', 'c17d')
+  seen = []
+  real = api._TRANSPILER.transform_ast
+
+  def spy(node, ctx):
+    out = real(node, ctx)
+    seen.append(out)
+    return out
+  api._TRANSPILER.transform_ast = spy
+  try:
+    g = malt.to_graph(m.f)
+  finally:
+    del api._TRANSPILER.transform_ast
+  for tree in seen:
+    ids = {}
+    for n in ast.walk(tree):
+      if isinstance(n, (ast.expr_context, ast.operator, ast.boolop, ast.unaryop, ast.cmpop)):
+        continue            # CPython shares these singletons
+      if id(n) in ids:
+        return 'node object %s occurs twice in the tree returned by transform_ast' % ast.dump(n)[:80]
+      ids[id(n)] = n
+  if g(1) != m.f(1) or g(0, 5, k=9) != m.f(0, 5, k=9):
+    return 'converted function with several defaults differs from the original'
+
+
+@witness('C10-entry-point-vs-callee-options-do-not-alias', ['C10'])
+def c10_user_requested():
+  """Option sets that differ only in user_requested / internal_convert_user_code are different cache keys: a function
+  first converted as a callee and then requested as an entry point must behave like a fresh entry-point conversion
+  (its FunctionScope switches conversion on even inside a do_not_convert region)."""
+  from malt.core import ag_ctx
+  from malt.impl import api
+  m = _load('''
+from malt.core import ag_ctx
+
+def probe():
+  return ag_ctx.control_status_ctx().status.name
+
+def callee():
+  return probe()
+
+def f():
+  return callee()
+''', 'c10ur')
+
+  def disabled(fn):
+    with ag_ctx.ControlStatusCtx(status=ag_ctx.Status.DISABLED):
+      return fn()
+  api.to_graph(m.f)()                 # callee converted with user_requested=False
+  served = api.to_graph(m.callee)     # now requested as an entry point
+  saved = api._TRANSPILER
+  api._TRANSPILER = api.PyToPy()
+  try:
+    fresh = api.to_graph(m.callee)
+  finally:
+    api._TRANSPILER = saved
+  got, want = disabled(served), disabled(fresh)
+  if got != want:
+    return ('to_graph(callee) after callee was converted as a callee: status inside is %s, a fresh conversion under the '
+            'same options gives %s' % (got, want))
+
+
 def main():
   prop = sys.argv[1]
   failing, run = [], 0
